@@ -52,6 +52,33 @@ def run(prog):
                                  "an empty clause makes it zero and free variables contribute their weight sums)" % show(a)[:50])
             out.append(inst("EE", "%s:returns-enumerated-sum" % fn.npath, VIOLATION if errs2 else OK, fn, None,
                             "; ".join(errs2) if errs2 else "every return value is the accumulated sum"))
+    # the enumeration runs over *all* variables of the formula: a label below num_vars that occurs in no clause still
+    # contributes (low + high) to a weighted count and a factor 2 to a model count
+    from . import nc as _nc
+    from .base import strip as _strip
+    for fn in prog.lib_fns:
+        if "::tests::" in fn.npath or fn.name.startswith("test_") or fn.npath.startswith("repr::cnf::AssignmentIter"):
+            continue
+        if not any(b["term"]["k"] == "call" for b in fn.blocks):
+            continue
+        for cs in fn.terms.calls:
+            if not (cs.callee.name == "new" and "AssignmentIter" in cs.callee.key() and cs.args):
+                continue
+            a = _strip(cs.args[0])
+            sa = show(a)
+            chain, t = [], a
+            while isinstance(t, tuple) and t and t[0] == "call" and t[2]:
+                chain.append(t[1].name)
+                t = _strip(t[2][0])
+            if (mir.is_call(a, "num_vars") and len(a[2]) == 1) or (a[0] == "field" and a[2] == "num_vars"):
+                out.append(inst("EE", "%s:all-variables" % fn.npath, OK, fn, cs.line, "assignments of all %s variables are enumerated" % sa))
+            elif chain and chain[0] in ("len", "count") and any(c in _nc.DROPPING for c in chain):
+                out.append(inst("EE", "%s:all-variables" % fn.npath, VIOLATION, fn, cs.line,
+                                "the enumeration runs over %s, a filtered subset of the variables: a variable below num_vars that "
+                                "the filter leaves out (one that occurs in no clause, say) still doubles the model count and "
+                                "contributes low + high to a weighted count" % sa[:80]))
+            else:
+                out.append(inst("EE", "%s:all-variables" % fn.npath, UNDECIDED, fn, cs.line, "number of enumerated variables is %s" % sa[:80]))
     if n < 1:
         # pipeline form: AssignmentIter::new(n).filter(|a| eval(a)).map(weight).fold(zero, +) / .sum()
         from . import nc
